@@ -19,7 +19,8 @@ EXPLANATION = (
     "last statement is an expression equals the lowering of `ret <expr>` (code of the expression, then Return of its value); "
     "(LOOP-DO) `loop do` builds the condition literal true; (NEWLINE-FLAG) every push_skip_newlines is paired, on every success "
     "path of its block, with a pop_skip_newlines of the flag it saved, so bracketed layout cannot leak into what follows; "
-    "(COMMENTS) Context::skip passes over comment tokens on every advance and comments live only in the parser's Statement "
+    "(NEWLINE-MODE) each parser selects the reviewed newline mode: true inside brackets, false at statement level, "
+    "and a prime call inherits the surrounding mode; (COMMENTS) Context::skip passes over comment tokens on every advance and comments live only in the parser's Statement "
     "(the resolved AST has no comment field); (NO-LAYOUT-FLOW) lowering and emission never use a span except the line of "
     "`<!>` (the one difference the property allows); (PARENS) a parenthesised expression resolves to its content."
 )
@@ -203,10 +204,51 @@ def newline_flag(F, rep):
                            saved[0]["name"], "" if ok else " — NOT restored: newline handling of the bracketed construct leaks into the code that follows"),
                        line_of(st))
     rep.floor("NEWLINE-FLAG", "push_skip_newlines sites", n, 10)
+    newline_modes(F, rep, PUSH)
     # push/pop themselves
     fpush, fpop = F.fn(PUSH), F.fn(POP)
     rep.ob("NEWLINE-FLAG", "push|returns-old", "self.skip_newlines" in pp(tc.n_tail(fn_body(fpush))), "push returns the previous flag", fpush["sp"])
     rep.ob("NEWLINE-FLAG", "pop|sets", "new.skip_newlines = skip_newlines" in pp(fn_body(fpop)), "pop installs the given flag", fpop["sp"])
+
+
+# which newline mode each construct selects (read from the source, one reason per line).  Inside brackets newlines
+# are skipped (true); statement-level parsers switch skipping off because a newline ends a statement (false);
+# a prime call has no closing token of its own and must keep the mode of whatever surrounds it (inherit).
+NEWLINE_MODE_TABLE = {
+    "sylt_parser::assignable_call": ["inherit", "true"],          # f' a, b  /  f(a, b)
+    "expression::case_expression": ["true"],                       # case .. do .. end spans lines
+    "expression::if_expression": ["true", "true"],                 # if / elif conditions
+    "expression::grouping_or_tuple": ["true"],
+    "expression::blob": ["true"],
+    "expression::list": ["true"],
+    "statement::statement": ["false", "true", "false", "false", "true"],   # statement start; from (..) / from ..; enum header; blob { }
+}
+
+
+def newline_modes(F, rep, PUSH):
+    for fn in F.own_fns(["sylt_parser"]):
+        modes = []
+        for c in nodes(fn_body(fn), "MethodCall"):
+            if callee(c) != PUSH:
+                continue
+            a = peel(c["args"][0])
+            if a.get("k") == "Lit" and a.get("lk") == "bool":
+                modes.append("true" if a["v"] else "false")
+            elif a.get("k") == "Field" and a["name"] == "skip_newlines":
+                modes.append("inherit")
+            else:
+                modes.append("?" + pp(a)[:20])
+        if not modes:
+            continue
+        name = last(fn["_path"], 2)
+        want = NEWLINE_MODE_TABLE.get(name)
+        if want is None:
+            rep.ob("NEWLINE-MODE", name, False, "%s selects newline modes %s but is not in the reviewed table" % (name, modes), fn["sp"])
+        else:
+            rep.ob("NEWLINE-MODE", name, sorted(modes) == sorted(want),
+                   "%s selects the newline modes %s (reviewed: %s)%s" % (name, modes, want, "" if sorted(modes) == sorted(want) else
+                   " — a bracketed construct whose inner parser switches newline skipping off (or a prime call that no longer inherits "
+                   "the surrounding mode) makes line breaks inside brackets significant"), fn["sp"])
 
 
 def _own_calls(e):
